@@ -20,6 +20,9 @@ import numpy as np
 
 from . import core
 from .core import Case, cD
+from . import pylite_tie
+
+obligations = pylite_tie.utils_obligations   # source-regenerated tie (see harness/pylite_tie.py)
 
 ID = "C11"
 PROPS_FILE = "Props/C11.v"
